@@ -43,6 +43,8 @@ def comp_of(ev):
 
 def run(ck):
     prog = ck.prog
+    summ = lib.Summaries(prog)
+    must_reject = summ.lift_must(lambda x: x["k"] == "call" and strip_tmpl(x.get("callee") or "") == "Pistache::Async::Promise::rejected", "rejected-promise")
     ck.rule("C05-R1", "C ordering + failure discipline",
             "fixed-length serialisers (ResponseWriter::putOnWire, serveFile): status line first; header, cookie and Content-Length writers "
             "before the blank line; body after it; every write is followed by a stream-state test whose failing arm returns a rejected "
@@ -105,7 +107,8 @@ def run(ck):
             if okf:
                 fail = cur.succs[0]
                 fe = cfg.events_from_block(f, fail, stop=lambda x: x["k"] == "return")
-                rej = any(x["k"] == "call" and strip_tmpl(x.get("callee") or "") == "Pistache::Async::Promise::rejected" for x in fe)
+                # every way out of the failing arm has produced a rejected promise (directly or through a local helper that always does)
+                rej = not [x for x in cfg.exits_without(f, must_reject, start_block=fail) if x.kind != "throw"]
                 reach_aw = any(comp_of(x) == "asyncWrite" for x in cfg.events_from_block(f, fail))
                 okf = rej and not reach_aw
                 detail = "failing arm returns Promise::rejected=%s, reaches asyncWrite=%s" % (rej, reach_aw)
